@@ -57,6 +57,7 @@ enum Ev {
     Install { p: xdr::ScAddress, rule: PRule },
     Uninstall { p: xdr::ScAddress, rule: PRule },
     Hit { t: xdr::ScAddress, f: u32 },
+    NoAuth,
 }
 thread_local! {
     static LOG: RefCell<Vec<Ev>> = RefCell::new(Vec::new());
@@ -473,16 +474,23 @@ impl Sim {
         let r: Option<ContextRule> = query(&self.e, &self.acct, "get_context_rule", args(&self.e, [v(&self.e, id)]));
         r.map(|r| prule(&r))
     }
-    fn rules_of(&self, t: Ty) -> Vec<PRule> {
-        let r: SVec<ContextRule> = query(&self.e, &self.acct, "get_context_rules", args(&self.e, [v(&self.e, self.ty(t))])).unwrap();
-        r.iter().map(|r| prule(&r)).collect()
+    /// `None` = the getter itself trapped (an id list naming a rule that does not exist)
+    fn rules_of(&self, t: Ty) -> Option<Vec<PRule>> {
+        let r: Option<SVec<ContextRule>> = query(&self.e, &self.acct, "get_context_rules", args(&self.e, [v(&self.e, self.ty(t))]));
+        r.map(|r| r.iter().map(|r| prule(&r)).collect())
     }
     fn state(&self) -> String {
         unlimited(&self.e);
-        let cnt: u32 = query(&self.e, &self.acct, "get_context_rules_count", args(&self.e, [])).unwrap();
+        let cnt: u32 = query(&self.e, &self.acct, "get_context_rules_count", args(&self.e, [])).unwrap_or(u32::MAX);
         let mut parts = vec![];
         for t in all_types() {
-            let rs = self.rules_of(t);
+            let rs = match self.rules_of(t) {
+                Some(rs) => rs,
+                None => {
+                    parts.push(format!("{}:?", t));
+                    continue;
+                }
+            };
             let body = if rs.is_empty() { "-".to_string() } else { rs.iter().map(|r| self.n_rule(r)).collect::<Vec<_>>().join(",") };
             // a rule listed under a type it does not carry would show here
             let wrong = rs.iter().any(|r| self.n_type(&r.ty) != t.to_string());
@@ -524,6 +532,7 @@ impl Sim {
                 }
                 Ev::Install { p, rule } => out.push(format!("i{}/{}", self.n_pol(p), rule.id)),
                 Ev::Uninstall { p, rule } => out.push(format!("u{}/{}", self.n_pol(p), rule.id)),
+                Ev::NoAuth => out.push("!noauth".into()),
                 Ev::Hit { t, f } => out.push(format!("h{}.{}", self.n_addr(t, &self.tgts).map(|i| i.to_string()).unwrap_or("?".into()), f)),
             }
         }
@@ -563,7 +572,11 @@ impl Sim {
         if ok && func == "add_context_rule" {
             self.adds += 1;
         }
-        let _ = self_auth;
+        // an accepted management call that never demanded the account's own authorization is flagged
+        let mut evs = evs;
+        if ok && !self_auth {
+            evs.push(Ev::NoAuth);
+        }
         self.finish_op(t, ok, id, evs, false);
         ok
     }
@@ -819,7 +832,7 @@ impl Gen {
     fn refresh(&mut self, s: &Sim) {
         self.rules.clear();
         for t in all_types() {
-            for r in s.rules_of(t) {
+            for r in s.rules_of(t).unwrap_or_default() {
                 self.rules.push(GRule {
                     id: r.id,
                     ty: t,
@@ -1245,7 +1258,9 @@ fn main() {
     let nseq = arg_u64("--seqs", if thorough { 400 } else { 60 });
     let len = arg_u64("--len", 40);
     let mut rng = Rng::new(seed);
-    directed(&mut t);
+    if !std::env::args().any(|a| a == "--no-directed") {
+        directed(&mut t);
+    }
     for k in 0..nseq {
         gen_seq(&mut rng, &mut t, k, seed, len);
     }
